@@ -359,3 +359,41 @@ gproof! { #[kani::unwind(4)] fn c14_thin_debug_delegates() {
     assert!(tcnt(&t) == 1);
     core::mem::forget(t);
 } }
+
+// ---- check mode (proof_for_contract): frame enforcement on never-freeing accessors ----
+// @h props=C11 mode=check fuc=ThinArc::heap_ptr
+#[kani::proof_for_contract(ThinArc::<u16, u32>::heap_ptr)]
+fn c11_chk_thin_heap_ptr() {
+    vrt::ghost_reset();
+    let (t, _l, _h, _b) = mk_thin_u32(any_count());
+    let _ = t.heap_ptr();
+    kani::cover!(true, "END");
+    core::mem::forget(t);
+}
+// @h props=C11 mode=check fuc=ThinArc::as_ptr
+#[kani::proof_for_contract(ThinArc::<u16, u32>::as_ptr)]
+fn c11_chk_thin_as_ptr() {
+    vrt::ghost_reset();
+    let (t, _l, _h, _b) = mk_thin_u32(any_count());
+    let _ = t.as_ptr();
+    kani::cover!(true, "END");
+    core::mem::forget(t);
+}
+// @h props=C04 mode=check fuc=ThinArc::strong_count
+#[kani::proof_for_contract(ThinArc::<u16, u32>::strong_count)]
+fn c04_chk_thin_strong_count() {
+    vrt::ghost_reset();
+    let (t, _l, _h, _b) = mk_thin_u32(any_count());
+    let _ = ThinArc::strong_count(&t);
+    kani::cover!(true, "END");
+    core::mem::forget(t);
+}
+// @h props=C10,C05 mode=check fuc=thin_to_thick
+#[kani::proof_for_contract(crate::thin_arc::thin_to_thick::<u16, u32>)]
+fn c10_chk_thin_to_thick() {
+    vrt::ghost_reset();
+    let (t, _l, _h, _b) = mk_thin_u32(any_count());
+    let _ = crate::thin_arc::thin_to_thick(&t);
+    kani::cover!(true, "END");
+    core::mem::forget(t);
+}
